@@ -702,6 +702,7 @@ func main() {
 	case "prec":
 		genPrec(w, rng.FromEnv(1111), thorough)
 		genPrecFamilies(w, rng.FromEnv(11110), thorough)
+		genPrecMany(w, rng.FromEnv(11111), thorough)
 	case "boundary":
 		genBoundary(w, rng.FromEnv(11011), thorough)
 	}
